@@ -553,11 +553,94 @@ def lift_targeton_stage(ctx: Ctx):
                       broken='correspondence S-api sge_proc.lift_targeton_config (Model/LiftTargeton.v)')
 
 
+def run_two(args):
+    d, d2 = args
+    return sge.run_design(d), sge.run_design(d2)
+
+
+def two_strand_stage(ctx: Ctx):
+    """Two genes on the two strands of one contig, background variants in the context of one of them only: the library of the other
+    gene must be the one of the same run on the pre-edited genome (there its coordinates are shifted by the net length change when
+    the edited gene lies before it).  Own generator state: the designs of the other stages stay what they were."""
+    import copy
+    import random
+    from .. import merge
+    rng = random.Random(f'C06-two-strands-{ctx.seed}')
+    sub = Ctx('C06', ctx.tier, ctx.seed, None)
+    sub.rng = rng
+    sub.known, sub.matchers = [], {}
+    n = ctx.n(16, 160)
+    focus_b = {'p_bg': 0.0, 'p_gtf': 1.0, 'p_custom': 0.0, 'p_pam': 0.5, 'p_table': 0.0, 'allow_junction_pam': False, 'n_targetons': rng.choice([1, 2])}
+    jobs = []
+    for a, a2, L in make_designs(sub, 4 * n, {'p_gtf': 1.0, 'p_custom': 0.0, 'p_table': 0.0, 'p_mask': 0.0}):
+        if len(jobs) >= n:
+            break
+        if not a.get('gtf') or a.get('codon_table'):
+            continue
+        b = None
+        for _ in range(20):
+            x = gen.gen_sge(rng, focus_b)
+            if x['strand'] != a['strand'] and x.get('gtf'):
+                b = x
+                break
+        if b is None:
+            continue
+        b['opts'] = dict(a['opts'])
+        b['extra_contigs'] = {}
+        for t in a['targetons'] + a2['targetons'] + b['targetons']:
+            t['sgrna'] = ['sg1'] if t.get('sgrna') else []
+        for x in (a, a2, b):
+            for e in x.get('pam') or []:
+                e['sgrna'] = 'sg1'
+        first = rng.random() < 0.7      # the edited gene before the other one on the contig (coordinates of the other shift), or after it
+        if first:
+            d, d2, off, off2 = merge.merge_designs(a, b, True), merge.merge_designs(a2, b, True), len(a['ref']), len(a2['ref'])
+            mine = [(len(a['targetons']) + j, b['strand'], t) for j, t in enumerate(b['targetons'])]
+        else:
+            d, d2, off, off2 = merge.merge_designs(b, a, True), merge.merge_designs(b, a2, True), 0, 0
+            mine = [(j, b['strand'], t) for j, t in enumerate(b['targetons'])]
+        jobs.append((d, d2, mine, off2 - off if first else 0))
+    res = pool_map(run_two, [(d, d2) for d, d2, _, _ in jobs], chunksize=2)
+    for (d, d2, mine, delta), (r, r2) in zip(jobs, res):
+        two_strand_compare(ctx, d, d2, [[j, st] for j, st, _ in mine], delta, r, r2)
+
+
+def two_strand_compare(ctx: Ctx, d, d2, mine, delta, r, r2):
+    cols = [c for c in CONTENT if c != 'oligo_length'] + ['oligo_length']
+    case = {'surface': 'file', 'design': d, 'pre_edited': d2, 'mine': mine, 'delta': delta}
+    ctx.evaluations += 1
+    ctx.count('two_strand_designs')
+    if r2['exit'] != 0:
+        ctx.count('two_strand_pre_edited_refused')
+        return
+    if r['exit'] != 0:
+        if any(l == 'CRITICAL' and m.startswith('Invalid background') for l, m in r['log']):
+            return
+        ctx.violation('spec_violation', f"two-strand design with background refused ({r['exc']} {r['exc_msg'][:80]}) although the same design on the pre-edited genome is accepted",
+                      dict(case, kind='two_strands_refused'))
+        return
+    for j, strand in mine:
+        t, t2 = d['targetons'][j], d2['targetons'][j]
+        name = sge.sge_targeton_name(d['contig'], strand, t)
+        name2 = sge.sge_targeton_name(d2['contig'], strand, t2)
+        key = lambda x, dl: tuple(x[c] for c in cols) + (int(x['mut_position']) + dl if x['mut_position'] != '-1' else -1,)
+        A = collections.Counter(key(x, delta) for x in sge.all_meta_rows(r['files'], name))
+        B = collections.Counter(key(x, 0) for x in sge.all_meta_rows(r2['files'], name2))
+        if A:
+            ctx.nontriv(('two_strands', common.sha(d), name))
+        if A != B:
+            oa, ob = list((A - B).elements())[:1], list((B - A).elements())[:1]
+            ctx.violation('spec_violation', f'two strands: targeton {name} of the gene without background variants differs from the run on the pre-edited genome: '
+                                            f'only with --bg {[(k[0], k[7:10], k[-1]) for k in oa]}, only pre-edited {[(k[0], k[7:10], k[-1]) for k in ob]}',
+                          dict(case, kind='two_strands', targeton_index=j))
+
+
 def run(ctx: Ctx):
     context_stage(ctx)
     files(ctx)
     lift_stage(ctx)
     lift_targeton_stage(ctx)
+    two_strand_stage(ctx)
     return {'rule': 'Metamorphic on the real tool: random SGE designs with background SNV/MNV anywhere and non-coding insertions/deletions upstream of, inside and '
                     'downstream of the targetons (with BED masks, PAM edits, custom variants, 1-3 targetons) are run next to the same design on the pre-edited genome '
                     '(reference = splice of the unmasked variants, every coordinate lifted): rows must correspond one-to-one on all content columns except those touching '
@@ -612,6 +695,14 @@ def replay(ctx: Ctx, path: str) -> int:
         return 0
     if 'design' not in c:
         print('replay: obligation-only replay file')
+        return 0
+    if c.get('kind') in ('two_strands', 'two_strands_refused'):
+        r, r2 = run_two((c['design'], c['pre_edited']))
+        two_strand_compare(ctx, c['design'], c['pre_edited'], c['mine'], c['delta'], r, r2)
+        if ctx.violations:
+            print(f'VIOLATION property=C06 replay={path}')
+            return 1
+        print('replay: property holds on this input now')
         return 0
     d, lifted = _case_pair(c)
     if lifted is None:
